@@ -73,6 +73,28 @@ def probes():
     P.append(("insert_while_ref", "E0499", 'fn main() { let mut c = mk(); let r = c.get("a"); c.insert("x".to_owned(), "y".to_owned()).unwrap(); let _ = r.is_some(); }'))
     P.append(("thread_send_ok", "ok", "fn main() { let c = mk(); std::thread::spawn(move || { let _ = c.len(); }).join().unwrap(); }"))
     P.append(("thread_share_ok", "ok", 'fn main() { let c = mk(); std::thread::scope(|s| { s.spawn(|| { let _ = c.peek("a"); }); s.spawn(|| { let _ = c.len(); }); }); }'))
+    # the iterator types: never more thread-safe than what they give access to
+    views = [("Iter", "lru_mem::Iter<'static, {k}, {v}>", "shared"), ("Keys", "lru_mem::Keys<'static, {k}, {v}>", "shared"),
+             ("Values", "lru_mem::Values<'static, {k}, {v}>", "shared"),
+             ("Drain", "lru_mem::Drain<'static, {k}, {v}, {s}>", "own"), ("IntoIter", "lru_mem::IntoIter<{k}, {v}, {s}>", "own"),
+             ("IntoKeys", "lru_mem::IntoKeys<{k}, {v}, {s}>", "own"), ("IntoValues", "lru_mem::IntoValues<{k}, {v}, {s}>", "own")]
+    for vname, tmpl, mode in views:
+        for pos in range(3):
+            if mode == "shared" and pos == 2:
+                continue
+            for w in [(True, False), (False, False)]:
+                a = [(True, True)] * 3
+                a[pos] = w
+                sty = {"lru_mem_default": "std::collections::hash_map::RandomState"}.get(HASHER_WITNESS[a[2]], HASHER_WITNESS[a[2]])
+                ty = tmpl.format(k=WITNESS[a[0]], v=WITNESS[a[1]], s=sty)
+                nm = "KVS"[pos] + ("_sendonly" if w == (True, False) else "_neither")
+                # shared views need K, V: Sync for either trait; the others follow the cache
+                send_must_fail = (not w[1]) if mode == "shared" else (not w[0])
+                sync_must_fail = not w[1]
+                if send_must_fail:
+                    P.append((f"view_{vname}_send_{nm}", "E0277", f"fn main() {{ is_send::<{ty}>() }}"))
+                if sync_must_fail:
+                    P.append((f"view_{vname}_sync_{nm}", "E0277", f"fn main() {{ is_sync::<{ty}>() }}"))
     P.append(("thread_send_rc", "E0277", "fn main() { let c: LruCache<u32, Rc<u32>> = LruCache::new(10); std::thread::spawn(move || { let _ = c.len(); }); }"))
     return P
 
